@@ -1,10 +1,285 @@
+// C05 harness: crash / failed-commit consistency of block storage.
+//
+// For generated operation sequences over {store, revert, prune, SetL1Head, WriteRunningEventFilter,
+// graceful / ungraceful restart}, on both state backends, on the memory and the pebblev2 engine, in two
+// universes (short chains from genesis; chains around the real 8192-block bloom-window end):
+//   (a) crash: the image right after EVERY committed write is copied, a fresh Blockchain is opened on
+//       the copy, every index family is decoded and compared with the image the extracted model
+//       predicts for "crash after k batches"; the extracted predicates (consistent, recover_ready,
+//       index_covers) are evaluated on the decoded image; event queries are compared with a naive
+//       receipt scan, the state commitment is recomputed from the tries, the next block is stored.
+//   (b) fault: EVERY commit of every operation is made to fail once; the run continues on the SAME
+//       Blockchain; after every later operation height / reader observations / event queries must
+//       equal the disk's (fresh instance, naive scan); finally the next block must store.
 package main
 
-import "os"
+import (
+	"context"
+	"encoding/binary"
+	"fmt"
+	"os"
+	"sort"
+	"strings"
 
-func main() {
-	if os.Getenv("C05_EXPLORE") != "" {
-		explore()
-		return
+	"github.com/NethermindEth/juno/blockchain"
+	"github.com/NethermindEth/juno/core"
+	"github.com/NethermindEth/juno/core/felt"
+	"github.com/NethermindEth/juno/db"
+	"github.com/NethermindEth/juno/db/memory"
+	"github.com/NethermindEth/juno/db/pebblev2"
+	"github.com/NethermindEth/juno/pruner"
+	"verifharness/chain"
+	"verifharness/faultdb"
+	"verifharness/hx"
+)
+
+const W = core.NumBlocksPerFilter
+
+// ---------- cases ----------
+type Op struct {
+	K    string `json:"k"` // S R P L N G U
+	From uint64 `json:"from,omitempty"`
+	Key  uint64 `json:"key,omitempty"`
+	E    uint64 `json:"e,omitempty"` // prune end (exclusive) / L1 head number
+}
+
+type Seq struct {
+	NewState bool   `json:"new_state"`
+	Engine   string `json:"engine"`   // memory | pebble
+	Boundary bool   `json:"boundary"` // start from the 8190-block light chain
+	Ops      []Op   `json:"ops"`
+}
+
+type Case struct {
+	Seq   Seq    `json:"seq"`
+	Mode  string `json:"mode"`  // crash | fault
+	Index int    `json:"index"` // crash: committed writes survived; fault: global index of the failing commit
+}
+
+// ---------- registry of built blocks ----------
+type blkInfo struct {
+	built  *chain.Built
+	num    uint64
+	id     string // block hash, hex without 0x
+	parent string
+	keys   []uint64 // bloom keys: event from-address and key
+	class  *felt.Felt
+	txs    []*felt.Felt
+}
+
+func hexOf(f *felt.Felt) string {
+	s := strings.TrimPrefix(f.String(), "0x")
+	s = strings.TrimLeft(s, "0")
+	if s == "" {
+		return "0"
+	}
+	return s
+}
+
+func keysStr(ks []uint64) string {
+	if len(ks) == 0 {
+		return "-"
+	}
+	ss := make([]string, 0, len(ks))
+	seen := map[string]bool{}
+	for _, k := range ks {
+		s := fmt.Sprintf("%x", k)
+		if !seen[s] {
+			seen[s] = true
+			ss = append(ss, s)
+		}
+	}
+	sort.Strings(ss)
+	return strings.Join(ss, "_")
+}
+
+func (b *blkInfo) enc() string {
+	return fmt.Sprintf("%x.%s.%s.%s", b.num, b.id, b.parent, keysStr(b.keys))
+}
+
+// ---------- a running node under test ----------
+type world struct {
+	seq      *Seq
+	c        *hx.Ctx
+	inner    db.KeyValueStore // engine
+	fd       *faultdb.DB
+	t        *chain.Node // node under test (on fd)
+	s        *chain.Node // sequencer: builds the blocks, mirrors t's disk chain (memory engine, no faults)
+	reg      map[string]*blkInfo
+	byNum    map[uint64][]*blkInfo
+	versions map[uint64]uint64
+	classCtr uint64
+	lo       uint64   // decode window: numbers >= lo
+	mops     []string // model ops issued so far
+	dirs     []string
+	initLine string // oracle init line ("" = reset)
+	baseH    int64
+}
+
+func (w *world) opts() []blockchain.Option {
+	// the pruning-aware initializer coincides with core's when nothing is pruned
+	return []blockchain.Option{blockchain.WithRunningEventFilterInitializer(pruner.InitializeRunningEventFilter)}
+}
+
+func (w *world) newNode(store db.KeyValueStore) *chain.Node {
+	n := chain.NewNode(store, w.seq.NewState, w.opts()...)
+	// force the lazy initialisation now: memory := reinit(disk at restart)
+	_, _ = queryEvents(n, 1, true, w.lo)
+	return n
+}
+
+var baseImages = map[bool]*memory.Database{}
+var baseSeq = map[bool]*memory.Database{}
+
+func baseChain(newState bool) *memory.Database {
+	if b, ok := baseImages[newState]; ok {
+		return b
+	}
+	base := memory.New()
+	seq := chain.NewNode(base, newState)
+	for n := uint64(0); n <= W-3; n++ {
+		if _, err := seq.Finalise(lightSpec(n)); err != nil {
+			hx.Fatalf("base chain: %v", err)
+		}
+	}
+	baseImages[newState] = base
+	return base
+}
+
+func newWorld(c *hx.Ctx, seq *Seq) *world {
+	w := &world{seq: seq, c: c, reg: map[string]*blkInfo{}, byNum: map[uint64][]*blkInfo{}, versions: map[uint64]uint64{}, baseH: -1}
+	var sdb *memory.Database
+	if seq.Boundary {
+		base := baseChain(seq.NewState)
+		w.inner = base.Copy()
+		sdb = base.Copy()
+		w.lo = W - 12
+		w.baseH = int64(W - 3)
+	} else {
+		sdb = memory.New()
+		if seq.Engine == "pebble" {
+			dir := hx.TempDir("c05")
+			w.dirs = append(w.dirs, dir)
+			p, err := pebblev2.New(dir)
+			hx.Must(err)
+			w.inner = p
+		} else {
+			w.inner = memory.New()
+		}
+	}
+	w.s = chain.NewNode(sdb, seq.NewState)
+	if seq.Boundary {
+		// register the base blocks of the decode window
+		for n := w.lo; n <= uint64(w.baseH); n++ {
+			blk, err := w.s.BC.BlockByNumber(n)
+			hx.Must(err)
+			su, err := w.s.BC.StateUpdateByNumber(n)
+			hx.Must(err)
+			cm, err := w.s.BC.BlockCommitmentsByNumber(n)
+			hx.Must(err)
+			w.register(&chain.Built{Block: blk, Update: su, Commit: cm}, nil, nil)
+		}
+	}
+	w.fd = faultdb.New(w.inner)
+	w.t = w.newNode(w.fd)
+	return w
+}
+
+func (w *world) cleanup() {
+	if w.inner != nil && w.seq.Engine == "pebble" {
+		_ = w.inner.Close()
+	}
+	for _, d := range w.dirs {
+		_ = os.RemoveAll(d)
 	}
 }
+
+func (w *world) register(b *chain.Built, keys []uint64, class *felt.Felt) *blkInfo {
+	bi := &blkInfo{built: b, num: b.Block.Number, id: hexOf(b.Block.Hash), parent: hexOf(b.Block.ParentHash), keys: keys, class: class}
+	for _, tx := range b.Block.Transactions {
+		bi.txs = append(bi.txs, tx.Hash())
+	}
+	w.reg[bi.id] = bi
+	w.byNum[bi.num] = append(w.byNum[bi.num], bi)
+	return bi
+}
+
+// build the next block on the sequencer (which mirrors the disk chain of the node under test)
+func (w *world) build(s *chain.Node, from, key uint64) (*blkInfo, error) {
+	var num uint64
+	if h, err := s.BC.Height(); err == nil {
+		num = h + 1
+	}
+	w.versions[num]++
+	w.classCtr++
+	spec := &chain.BlockSpec{
+		Salt:      w.versions[num],
+		Txs:       [][]chain.Ev{{{From: from, Keys: []uint64{key}, Data: []uint64{num}}}},
+		DeclareV0: []uint64{0x5000 + w.classCtr},
+		Storage:   map[uint64]map[uint64]uint64{0x100: {1: 1000 + w.classCtr}},
+	}
+	if num == 0 {
+		spec.Deploy = map[uint64]uint64{0x100: 0x55}
+		spec.DeclareV0 = append(spec.DeclareV0, 0x55)
+		spec.Storage = nil
+	}
+	b, err := s.Finalise(spec)
+	if err != nil {
+		return nil, err
+	}
+	return w.register(b, []uint64{from, key}, chain.F(0x5000+w.classCtr)), nil
+}
+
+// exec runs one operation on the node under test; returns the error the operation returned.
+func (w *world) exec(o Op) error {
+	switch o.K {
+	case "S":
+		bi, err := w.build(w.s, o.From, o.Key)
+		if err != nil {
+			hx.Fatalf("sequencer cannot build: %v", err)
+		}
+		w.mops = append(w.mops, "S "+strings.ReplaceAll(bi.enc(), ".", " "))
+		if err := w.t.Store(bi.built); err != nil {
+			_ = w.s.BC.RevertHead()
+			return err
+		}
+		return nil
+	case "R":
+		w.mops = append(w.mops, "R")
+		if err := w.t.BC.RevertHead(); err != nil {
+			return err
+		}
+		return w.s.BC.RevertHead()
+	case "P":
+		w.mops = append(w.mops, fmt.Sprintf("P %x", o.E))
+		_, _, err := pruner.PruneUpto(context.Background(), w.fd, o.E, 1)
+		return err
+	case "L":
+		w.mops = append(w.mops, fmt.Sprintf("L %x", o.E))
+		return w.t.BC.SetL1Head(&core.L1Head{BlockNumber: o.E, BlockHash: chain.F(o.E), StateRoot: chain.F(o.E)})
+	case "N":
+		w.mops = append(w.mops, "N")
+		return w.t.BC.WriteRunningEventFilter()
+	case "G":
+		w.mops = append(w.mops, "G")
+		err := w.t.BC.WriteRunningEventFilter()
+		w.t = w.newNode(w.fd)
+		return err
+	case "U":
+		w.mops = append(w.mops, "U")
+		w.t = w.newNode(w.fd)
+		return nil
+	}
+	hx.Fatalf("bad op %q", o.K)
+	return nil
+}
+
+func bloomKeyBytes(k uint64) []byte {
+	b := chain.F(k).Bytes()
+	if k >= 3 { // event key at index 0
+		return binary.AppendVarint(b[:], 0)
+	}
+	return b[:]
+}
+
+var universe = []uint64{1, 2, 3, 4} // 1,2: from addresses; 3,4: first keys
